@@ -63,6 +63,8 @@ def mutants(ids: list[str] | None = None, tier: str = "quick") -> int:
         entries.append((d, meta))
     def one(entry):
         d, meta = entry
+        if meta.get("outside_statement"):
+            return (os.path.basename(d), [], "skipped (change does not violate the property as stated)")
         props = meta.get("detected_by") or meta.get("property") or []
         if isinstance(props, str):
             props = [props]
